@@ -861,6 +861,84 @@ theorem gen_vec_matrix {n : Nat} (B : Basis K d n) (v : Vec K n) (rho : Mat K d 
     densityLoop B v = (List.finRange n).foldl (fun acc a => QGen.C02.povmMatrixLoopTerm acc (v.get a) (B.get a)) Mat.zero :=
   ⟨rfl, rfl, rfl, rfl, rfl, rfl, rfl⟩
 
+/-- the parameter checks of `convert_hs` / `convert_vec` are the generated `if … : raise ValueError` chains, in source order. -/
+theorem gen_convert_checks :
+    convertHsChecks = QGen.C02.convertHsChecksGen ∧ convertVecChecks = QGen.C02.convertVecChecksGen := ⟨rfl, rfl⟩
+
+/-- `to_kraus_matrices_from_hs` is assembled from the generated pieces: the CP verdict (`is_cp` =
+`is_positive_semidefinite` of the sparse Choi matrix: Hermitian test, close-to-zero eigenvalues deleted, the rest `>= 0`), the
+zero filter `not np.isclose(λ, 0, atol=Settings.get_atol())`, `sorted(…, key=λ, reverse=True)`, the scaling
+`np.sqrt(λ) * v.reshape((dim, dim))`; `krausFull` adds the phase step on each. -/
+theorem gen_kraus_extraction {d : Nat} (B : Basis CRat d (d * d)) (hs : Mat CRat (d * d) (d * d)) (eigs : List (EigPair d))
+    (atol atolS : Rat) :
+    isCp (choiSparse B hs) eigs atol = QGen.C02.isCpGen (QGen.C02.toChoiFromVarChoi B hs) eigs atol ∧
+    krausRaw B hs eigs atol atolS
+      = (if !QGen.C02.isCpGen (choiSparse B hs) eigs atol then []
+         else (QGen.C02.krausSort (eigs.filter (QGen.C02.krausKeep atolS))).map QGen.C02.krausScale) ∧
+    krausFull B hs eigs atol atolS
+      = (if !QGen.C02.isCpGen (choiSparse B hs) eigs atol then []
+         else (QGen.C02.krausSort (eigs.filter (QGen.C02.krausKeep atolS))).map
+            fun e => phaseFix (QGen.C02.krausScale e) e.absScaled) := ⟨rfl, rfl, rfl⟩
+
+/-- `convert_var_to_hs(…, True)` inserts the row `np.eye(1, dim²)` at the generated index (0) and shifts every other row down;
+`convert_hs_to_var(…, True)` deletes the row with the generated index (0). -/
+theorem gen_var_rows {n : Nat} (var : Vec K ((n - 1) * n)) (hs : Mat K n n) :
+    (∀ (i j : Fin n), i.val = QGen.C02.varRowIndex → (varToHsEq var).get i j = if j.val = 0 then 1 else 0) ∧
+    (∀ (i j : Fin n) (_ : i.val ≠ QGen.C02.varRowIndex) (hb : i.val - 1 < n - 1),
+      (varToHsEq var).get i j = var.get (pidx ⟨i.val - 1, hb⟩ j)) ∧
+    (∀ x, (hsToVarEq hs).get x
+      = hs.get ⟨(pdiv x).val + (QGen.C02.varRowDeleted + 1), by have := (pdiv x).isLt; simp [QGen.C02.varRowDeleted]; omega⟩ (pmod x)) := by
+  refine ⟨?_, ?_, ?_⟩
+  · intro i j h
+    have h0 : i.val = 0 := h
+    simp [varToHsEq, h0]
+  · intro i j h hb
+    have h0 : ¬ i.val = 0 := h
+    simp [varToHsEq, h0]
+  · intro x; simp [hsToVarEq, QGen.C02.varRowDeleted]
+
+/-! ## measurement processes: per-outcome and list-valued conversions (mprocess.py) -/
+
+/-- `MProcess.to_choi_matrix(i)`, `…_with_dict(i)`, `…_with_sparsity(i)`, `to_process_matrix(i)` all return the Choi matrix of the
+`i`-th HS matrix for a valid outcome index, and raise IndexError past the end. -/
+theorem mprocess_outcome_conversions {d : Nat} (B : Basis CRat d (d * d)) (hss : List (Mat CRat (d * d) (d * d))) (i : Nat)
+    (hd : 0 < d) :
+    (∀ hi : i < hss.length,
+      mpChoiSparse B hss i = .ok (choiSparse B hss[i]) ∧ mpChoiDict B hss i = .ok (choiSparse B hss[i]) ∧
+      mpChoiLoop B hss i = .ok (choiSparse B hss[i]) ∧ mpProcessMatrix B hss i = .ok (choiSparse B hss[i])) ∧
+    (hss.length ≤ i →
+      mpChoiSparse B hss i = .error .indexError ∧ mpChoiDict B hss i = .error .indexError ∧
+      mpChoiLoop B hss i = .error .indexError ∧ mpProcessMatrix B hss i = .error .indexError) := by
+  constructor
+  · intro hi
+    have ho : mpOutcome hss i = .ok hss[i] := by simp [mpOutcome, hi]
+    refine ⟨by simp [mpChoiSparse, ho], ?_, ?_, ?_⟩
+    · simp [mpChoiDict, ho, (choi_variants_agree B hss[i] hd).2.1]
+    · simp [mpChoiLoop, ho, (choi_variants_agree B hss[i] hd).1]
+    · simp [mpProcessMatrix, ho, processMatrix_eq_choi]
+  · intro hi
+    have ho : mpOutcome hss i = .error .indexError := by simp [mpOutcome, List.getElem?_eq_none hi]
+    simp [mpChoiSparse, mpChoiDict, mpChoiLoop, mpProcessMatrix, ho]
+
+/-- `MProcess.convert_basis` / `convert_to_comp_basis` (the whole returned list): converting back returns the list; every
+element of the row-major computational-basis list acts on `vec(ρ)` as the corresponding outcome map. -/
+theorem mprocess_convert_basis {n : Nat} (F T : Basis K d n) (hF : Orthonormal F) (hT : Complete T) (hss : List (Mat K n n))
+    (B : Basis K d (d * d)) (hs' : List (Mat K (d * d) (d * d))) (rho : Mat K d d) :
+    mpConvertBasis T F (mpConvertBasis F T hss) = hss ∧
+    (mpConvertToComp B true hs').length = hs'.length ∧
+    ∀ (i : Nat) (hi : i < hs'.length),
+      ((mpConvertToComp B true hs')[i]'(by simpa [mpConvertToComp, mpConvertBasis] using hi)).mulVec (flat rho)
+        = flat (densitySparse B (hs'[i].mulVec (vecOfDensityRaw B rho))) := by
+  refine ⟨?_, by simp [mpConvertToComp, mpConvertBasis], ?_⟩
+  · simp only [mpConvertBasis, List.map_map]
+    conv_rhs => rw [← List.map_id hss]
+    apply List.map_congr_left
+    intro hs _
+    exact convertHs_roundtrip F T hF hT hs
+  · intro i hi
+    simp only [mpConvertToComp, mpConvertBasis, List.getElem_map]
+    exact comp_basis_action B _ rho
+
 /-! ## non-vacuity: concrete instances of the hypotheses -/
 
 -- the computational basis is orthonormal over every star-ring, e.g. ℂ, for every d
@@ -930,5 +1008,18 @@ example : hsOfKrausRaw B0 (krausFull B0 yHs yEigs 0 0) = yHs :=
   (kraus_full_roundtrip_exact_kernel B0 B0_orthonormal yHs yEigs 0 0 (by decide +kernel)
     ⟨by intro i j; revert i j; decide +kernel, by decide +kernel, by decide +kernel⟩
     (by unfold AbsContract; decide +kernel) Mat.zero).1
+
+-- a two-outcome measurement process on B0 (identity map and the Y-mixture): outcome access, the four per-outcome conversions
+-- and the IndexError past the end
+example : mpChoiDict B0 [idHs, yHs] 1 = .ok (choiSparse B0 yHs) ∧ mpProcessMatrix B0 [idHs, yHs] 1 = .ok (choiSparse B0 yHs) ∧
+    mpChoiLoop B0 [idHs, yHs] 2 = .error .indexError :=
+  ⟨((mprocess_outcome_conversions B0 [idHs, yHs] 1 (by decide)).1 (by decide)).2.1,
+   ((mprocess_outcome_conversions B0 [idHs, yHs] 1 (by decide)).1 (by decide)).2.2.2,
+   ((mprocess_outcome_conversions B0 [idHs, yHs] 2 (by decide)).2 (by decide)).2.2.1⟩
+example : mpConvertBasis (compBasis 2 true) B0 (mpConvertBasis B0 (compBasis 2 true) [idHs, yHs]) = [idHs, yHs] :=
+  (mprocess_convert_basis B0 (compBasis 2 true) B0_orthonormal
+    (complete_of_orthonormal _ (comp_orthonormal 2)) [idHs, yHs] B0 [] Mat.zero).1
+example : convertHsChecks 4 3 2 4 2 4 = .error .notSquare ∧ convertHsChecks 3 3 2 4 2 4 = .error .dimNotSquare ∧
+    convertHsChecks 4 4 2 4 3 9 = .error .dimMismatch ∧ convertHsChecks 4 4 2 4 2 5 = .error .lenMismatch := by decide +kernel
 
 end QM.C02
